@@ -953,10 +953,14 @@ func (c *Check) paramValidatorsAgree(rule string) {
 	reg := map[string]string{}   // field -> validator
 	owner := map[string]string{} // validator -> field
 	for _, pa := range c.P.PathsOf(ps) {
-		if len(pa.Ret) != 1 || pa.Ret[0].Op != "lit" {
+		if len(pa.Ret) != 1 {
 			continue
 		}
-		for _, el := range pa.Ret[0].A[1:] {
+		pairs, okList := listElems(pa.Ret[0])
+		if !okList {
+			continue
+		}
+		for _, el := range pairs {
 			var fld, val string
 			el.Walk(func(t *Term) bool {
 				if strings.HasPrefix(t.Op, ".Params.") && len(t.A) == 1 {
@@ -1159,10 +1163,14 @@ func (c *Check) fractionValidators(rule string) {
 	}
 	reg := map[string]string{}
 	for _, pa := range c.P.PathsOf(ps) {
-		if len(pa.Ret) != 1 || pa.Ret[0].Op != "lit" {
+		if len(pa.Ret) != 1 {
 			continue
 		}
-		for _, el := range pa.Ret[0].A[1:] {
+		pairs, okList := listElems(pa.Ret[0])
+		if !okList {
+			continue
+		}
+		for _, el := range pairs {
 			var fld, val string
 			el.Walk(func(t *Term) bool {
 				if strings.HasPrefix(t.Op, ".Params.") && len(t.A) == 1 {
